@@ -209,12 +209,19 @@ func FamilyScenario(family string, seed int64, i, blocks, maxTx int) *Scenario {
 	if family == "olvm" {
 		gs = OlvmGenesis()
 	}
+	if family == "gov" && i%4 == 1 {
+		gs.Proposal.NoBurn = true // fund distributions without a burnt part
+	}
 	if family == "gov" && i%4 == 3 {
 		// a pass percentage of 67 with powers 5, 4 and (staked in the story) 3: one dissenter holds exactly a third
 		gs.Proposal.PassPct = 67
+		gs.Staking.Top = 3
 	}
 	if family == "ethstory" { // guided tracker histories on the three witness genesis documents in turn
 		gs = []GenesisSpec{EthGenesis(), Erc20Genesis(), EthGenesis5()}[i%3]
+	}
+	if family == "govstake" { // a staking option changed by a proposal, on the genesis whose fork puts the options in range
+		gs = OlvmGenesis()
 	}
 	if family == "olvmfork" { // the fork that switches the EVM on lies inside the history
 		gs = OlvmGenesis()
